@@ -31,6 +31,8 @@ class Fail(Exception):
 
 USED_CONSTS = {}
 RULE_FIELDS = {}
+# opaque calls of the rewritten `_get_references_in_rml_rule` -> parameters of the translated code
+LIST_PRIMS = {'_fnml_refs': 'fnmlRefs', '_quoted_refs': 'quotedRefs', '_join_child_refs': 'joinChildRefs', '_join_parent_refs': 'joinParentRefs'}
 FINDALL_PATTERN = '\\{([^}]+)'
 DOTZERO_PATTERN = (r'^([+-]?[0-9]+)\.0\Z', r'\1')
 
@@ -96,9 +98,13 @@ class Tr:
             return 'list'
         if isinstance(e, ast.Call) and isinstance(e.func, ast.Name) and e.func.id == 'get_references_in_template':
             return 'list'
-        if isinstance(e, ast.ListComp):
+        if isinstance(e, ast.ListComp) or isinstance(e, ast.List):
             return 'list'
         if isinstance(e, ast.Subscript) and isinstance(e.slice, ast.Slice) and self.ty(e.value) == 'list':
+            return 'list'
+        if isinstance(e, ast.BinOp) and isinstance(e.op, ast.Add) and self.ty(e.left) == 'list':
+            return 'list'
+        if isinstance(e, ast.Call) and isinstance(e.func, ast.Name) and e.func.id in LIST_PRIMS:
             return 'list'
         return 'str'
 
@@ -130,6 +136,8 @@ class Tr:
             return '(' + ' ++ '.join(self.expr(p) for p in flat_add(e)) + ')'
         if isinstance(e, ast.Subscript):
             return self.subscript(e)
+        if isinstance(e, ast.List):
+            return '[' + ', '.join(self.expr(x) for x in e.elts) + ']'
         if isinstance(e, ast.ListComp):
             if len(e.generators) != 1 or e.generators[0].ifs or not isinstance(e.generators[0].target, ast.Name):
                 raise Fail('list comprehension shape')
@@ -205,6 +213,8 @@ class Tr:
                     RULE_FIELDS[a.slice.value] = 'opt'
                     return f'(pyStrOpt rule.{a.slice.value})'
                 return self.expr(a)
+            if f.id in LIST_PRIMS and len(e.args) == 1 and not kws:
+                return f'(prims.{LIST_PRIMS[f.id]} {self.expr(e.args[0])})'
             if f.id == getattr(self, 'opt_call', None) and len(e.args) == 1 and not kws:
                 n = f'r_{self.nlift}'
                 self.nlift += 1
@@ -270,6 +280,12 @@ class Tr:
         raise Fail(f'call {ast.unparse(e)[:80]}')
 
     def cond(self, t):
+        if isinstance(t, ast.Call) and ast.unparse(t.func) == 'pd.isna' and len(t.args) == 1 and isinstance(t.args[0], ast.Subscript) \
+                and isinstance(t.args[0].value, ast.Name) and t.args[0].value.id == self.rule \
+                and isinstance(t.args[0].slice, ast.Constant) and isinstance(t.args[0].slice.value, str):
+            k = t.args[0].slice.value + '_isna'
+            RULE_FIELDS[k] = 'bool'
+            return f'(rule.{k} = true)'
         if isinstance(t, ast.UnaryOp) and isinstance(t.op, ast.Not):
             return f'(¬ {self.cond(t.operand)})'
         if isinstance(t, ast.Name) and self.types.get(t.id) == 'bool':
@@ -593,6 +609,88 @@ def py_params(fn):
     return names, defaults
 
 
+def specialise_refs(fn, only_subject):
+    """`_get_references_in_rml_rule` for a fixed value of `only_subject_map`: conditional position lists evaluated, the loops over
+    them unrolled (f-strings of the loop variable folded into constants), list mutation written as assignment, the calls that leave
+    the function (function executions, quoted triples maps, join conditions) replaced by parameters"""
+    import copy
+
+    class Subst(ast.NodeTransformer):
+        def __init__(self, name, value):
+            self.name, self.value = name, value
+
+        def visit_Name(self, n):
+            return ast.Constant(value=self.value) if n.id == self.name else n
+
+        def visit_JoinedStr(self, n):
+            self.generic_visit(n)
+            parts = []
+            for p in n.values:
+                if isinstance(p, ast.Constant):
+                    parts.append(p.value)
+                elif isinstance(p, ast.FormattedValue) and isinstance(p.value, ast.Constant) and p.conversion == -1 and p.format_spec is None:
+                    parts.append(str(p.value.value))
+                else:
+                    return n
+            return ast.Constant(value=''.join(parts))
+
+    out = []
+    consts = {}
+    for st in strip_doc(fn.body):
+        if isinstance(st, ast.Assign) and len(st.targets) == 1 and isinstance(st.targets[0], ast.Name) and isinstance(st.value, ast.IfExp) \
+                and ast.unparse(st.value.test) == 'only_subject_map':
+            v = st.value.body if only_subject else st.value.orelse
+            if not (isinstance(v, ast.List) and all(isinstance(x, ast.Constant) and isinstance(x.value, str) for x in v.elts)):
+                raise Fail(f'position list {ast.unparse(v)[:60]}')
+            consts[st.targets[0].id] = [x.value for x in v.elts]
+            continue
+        if isinstance(st, ast.For) and isinstance(st.iter, ast.Name) and st.iter.id in consts and isinstance(st.target, ast.Name) and not st.orelse:
+            for val in consts[st.iter.id]:
+                for b in st.body:
+                    out.append(Subst(st.target.id, val).visit(copy.deepcopy(b)))
+            continue
+        out.append(copy.deepcopy(st))
+
+    def rewrite(stmts):
+        res = []
+        i = 0
+        while i < len(stmts):
+            st = stmts[i]
+            if isinstance(st, ast.If):
+                st.body, st.orelse = rewrite(st.body), rewrite(st.orelse)
+                res.append(st)
+            elif isinstance(st, ast.Expr) and isinstance(st.value, ast.Call) and isinstance(st.value.func, ast.Attribute) \
+                    and isinstance(st.value.func.value, ast.Name) and st.value.func.attr in ('extend', 'append') and len(st.value.args) == 1:
+                tgt, arg = st.value.func.value.id, st.value.args[0]
+                u = ast.unparse(arg)
+                if isinstance(arg, ast.Call) and ast.unparse(arg.func) == 'get_references_in_fnml_execution' and len(arg.args) == 2 \
+                        and ast.unparse(arg.args[0]) == 'fnml_df':
+                    arg = ast.Call(func=ast.Name(id='_fnml_refs'), args=[arg.args[1]], keywords=[])
+                elif u == '_get_references_in_rml_rule(parent_rml_rule, rml_df, fnml_df)':
+                    prev = res[-1] if res else None
+                    if not (isinstance(prev, ast.Assign) and ast.unparse(prev.targets[0]) == 'parent_rml_rule' and isinstance(prev.value, ast.Call)
+                            and ast.unparse(prev.value.func) == 'get_rml_rule' and len(prev.value.args) == 2 and ast.unparse(prev.value.args[0]) == 'rml_df'):
+                        raise Fail('the recursive call is not preceded by `parent_rml_rule = get_rml_rule(rml_df, …)`')
+                    res.pop()
+                    arg = ast.Call(func=ast.Name(id='_quoted_refs'), args=[prev.value.args[1]], keywords=[])
+                rhs = arg if st.value.func.attr == 'extend' else ast.List(elts=[arg])
+                res.append(ast.Assign(targets=[ast.Name(id=tgt)], value=ast.BinOp(left=ast.Name(id=tgt), op=ast.Add(), right=rhs)))
+            elif isinstance(st, ast.Assign) and len(st.targets) == 1 and isinstance(st.targets[0], ast.Tuple) and len(st.targets[0].elts) == 2 \
+                    and isinstance(st.value, ast.Call) and ast.unparse(st.value.func) == 'get_references_in_join_condition' \
+                    and len(st.value.args) == 2 and ast.unparse(st.value.args[0]) == 'rml_rule':
+                a, b = st.targets[0].elts
+                res.append(ast.Assign(targets=[a], value=ast.Call(func=ast.Name(id='_join_child_refs'), args=[st.value.args[1]], keywords=[])))
+                res.append(ast.Assign(targets=[b], value=ast.Call(func=ast.Name(id='_join_parent_refs'), args=[st.value.args[1]], keywords=[])))
+            else:
+                res.append(st)
+            i += 1
+        return res
+    out = rewrite(out)
+    for st in out:
+        ast.fix_missing_locations(st)
+    return out
+
+
 def generate(src, env, out, summary):
     USED_CONSTS.clear()
     RULE_FIELDS.clear()
@@ -694,6 +792,24 @@ def generate(src, env, out, summary):
     except (Fail, KeyError) as e:
         failures.append(f'_materialize_rml_rule (triple assembly): {e}')
 
+    # 6. materializer._get_references_in_rml_rule: the loops over the constant position lists are unrolled, once per value of only_subject_map
+    try:
+        fn = src.func('materializer.py', '_get_references_in_rml_rule')
+        names, defaults = py_params(fn)
+        if names != ['rml_rule', 'rml_df', 'fnml_df', 'only_subject_map'] or ast.unparse(defaults[-1]) != 'False':
+            raise Fail(f'parameters {names}')
+        for flag in (True, False):
+            body = specialise_refs(fn, flag)
+            fake = ast.FunctionDef(name=fn.name, args=fn.args, body=body, decorator_list=[], lineno=0)
+            nm = 'get_references_in_rml_rule_' + ('subject' if flag else 'all')
+            d, tr = translate(fake, env, nm, [('rml_rule', 'rule')], rule='rml_rule', translated=('get_references_in_template',),
+                              extra=[('(prims : Prims)', 'prims')], rty='List Str',
+                              doc_extra=f' with `only_subject_map={flag}`: the loops over the constant position lists unrolled')
+            defs.append(d)
+        info['get_references_in_rml_rule'] = 'translated'
+    except (Fail, KeyError) as e:
+        failures.append(f'_get_references_in_rml_rule: {e}')
+
     consts = []
     for k in ['RML_REFERENCE', 'RML_TEMPLATE', 'RML_CONSTANT', 'RML_IRI', 'RML_LITERAL', 'RML_BLANK_NODE', 'XSD_BOOLEAN', 'XSD_DATETIME',
               'XSD_INTEGER', 'AUXILIAR_UNIQUE_REPLACING_STRING', 'RML_EXECUTION', 'RML_LANGUAGE_MAP', 'RML_DATATYPE_MAP', 'RML_DEFAULT_GRAPH', 'NQUADS']:
@@ -705,7 +821,7 @@ def generate(src, env, out, summary):
         consts.append(f'def {k} : Str := {lean_str(USED_CONSTS[k])}')
 
     ok = not failures
-    rule_struct = '\n'.join(f'  {f} : Str := []' for f in sorted(RULE_FIELDS)) or '  unused : Unit := ()'
+    rule_struct = '\n'.join(f'  {f} : ' + ('Bool := true' if RULE_FIELDS[f] == 'bool' else 'Str := []') for f in sorted(RULE_FIELDS)) or '  unused : Unit := ()'
     text = HEADER + f'''
 import MorphKgc.Model.Term
 import MorphKgc.Model.Canon
@@ -727,6 +843,13 @@ structure Prims where
   outputFormat : Str
   /-- `_materialize_fnml_execution(df, execution, fnml_df, config, position, termtype, datatype)` row-wise (C14's domain: a parameter here) -/
   fnml : (Str → Option Str) → Str → Str → Str → Str → Except Model.MatErr Str
+  /-- `get_references_in_fnml_execution(fnml_df, execution)` -/
+  fnmlRefs : Str → List Str
+  /-- `_get_references_in_rml_rule(get_rml_rule(rml_df, <quoted triples map>), rml_df, fnml_df)` (C13's domain) -/
+  quotedRefs : Str → List Str
+  /-- first / second component of `get_references_in_join_condition(rml_rule, <column>)` -/
+  joinChildRefs : Str → List Str
+  joinParentRefs : Str → List Str
 
 /-- one row of `rml_df` as the translated code reads it: `rml_rule['<field>']` -/
 structure PyRule where
